@@ -285,7 +285,7 @@ def clause_c(c: Check):
             given[p.arg] = tsd
     c.require(len(given) == 2, 'C20-c: MainProgram.__init__ parameters not recognised')
     insts = it.instantiate(mp, State(), given)
-    c.require(len(insts) >= 1, 'C20-c: MainProgram.__init__ has no path')
+    c.require(len(insts) == 1, 'C20-c: MainProgram.__init__ has %d paths' % len(insts))
     obj, st = insts[0]
     parse_setup_ok = False
     for e in st.trace:
